@@ -18,6 +18,8 @@ fn pin_menu() -> Vec<Pin> {
         Pin::new(PinKind::In, "A"),
         b,
         Pin::new(PinKind::In, "E").default(digxml::Default::Z),
+        Pin::new(PinKind::In, "EZ").default(digxml::Default::Z),
+        Pin::new(PinKind::Clock, "EZ3").bits("3").default(digxml::Default::Z),
         Pin::new(PinKind::Clock, "CLK"),
         Pin::new(PinKind::In, "C").bits("2"),
         Pin::new(PinKind::Out, "Q"),
